@@ -439,7 +439,17 @@ func verifC11h() { // C11g with the decorator shapes fixed: a value decorator wi
 		faults: 1, nInvokes: 1, invParams: 1, objOnly: true, allAccepted: true})
 }
 
-func init() { verifEntries["verifC11g"] = verifC11g; verifEntries["verifC11h"] = verifC11h }
+func verifC11i() { // C11a with nested parameter objects: a soft group field followed only by a nested dig.In field
+	verifRunProfile(&vProfile{name: "C11i", clauses: vC11,
+		maxScopes: 1, nRegs: 1, maxParams: 0, maxResults: 2, pForms: 3, rForms: 2, names: 1, groups: true, soft: true, softOuter: true,
+		faults: 1, nInvokes: 1, invParams: 2})
+}
+
+func init() {
+	verifEntries["verifC11g"] = verifC11g
+	verifEntries["verifC11h"] = verifC11h
+	verifEntries["verifC11i"] = verifC11i
+}
 
 func verifC03g() { // a value group decorated at two levels: an outer decorator the inner one does not consume is not run
 	verifRunProfile(&vProfile{name: "C03g", clauses: vC03,
